@@ -1,4 +1,5 @@
 mod gen;
+mod net;
 mod out;
 mod rng;
 mod run;
